@@ -113,7 +113,7 @@ func refX448(k, u []byte) ([]byte, bool) {
 // ---------------------------------------------------------------------------------------------
 
 type c14Case struct {
-	Kind   string `json:"kind"` // x448 | newkey | genkey | dh | x25519 | x25519key | conc448 | conc25519
+	Kind   string `json:"kind"` // x448 | newkey | genkey | dh | x25519 | x25519key | conc448 | conc25519 | keyshape (Note = curve, Shape = tag)
 	Scalar []byte `json:"scalar"`
 	Point  []byte `json:"point"`
 	Model  bool   `json:"model"` // also run the (slow, ≈1.4 s) Lean model of the Go code
@@ -242,6 +242,8 @@ func execC14(c *vf.Ctx, d *vf.Driver, cs c14Case) {
 		return res, true
 	}
 	switch cs.Kind {
+	case "keyshape":
+		execC14KeyShape(c, cs)
 	case "x448":
 		var g c14Out
 		panicked, what := vf.Recover(func() {
@@ -987,6 +989,14 @@ func runC14(c *vf.Ctx) {
 		fixed = append(fixed, c14Case{Kind: "newkey", Scalar: c14GenScalar(seedR), Model: true, Note: "newkey"})
 		fixed = append(fixed, c14Case{Kind: "genkey", Scalar: seedR.Bytes(56 + seedR.Intn(8)), Model: i < 3, Note: "genkey"})
 	}
+	// argument shapes of the key functions (c14_shape.go): both curves, every shape, fresh seeds per round
+	{
+		rounds := c.Budget(8, 80)
+		if SearchMode() {
+			rounds *= 4
+		}
+		fixed = append(fixed, c14KeyShapeCases(seedR, rounds)...)
+	}
 	// the exceptional branch of the key theorems: the 8 seeds with clamp(seed) = 4·l
 	{
 		base := c14Hex(c14Seed4l)
@@ -1130,6 +1140,9 @@ func runC14(c *vf.Ctx) {
 				cs = c14Case{Kind: "x25519", Scalar: sc, Point: pt, Note: "x25519"}
 			default:
 				cs = c14Case{Kind: "x25519key", Scalar: r.Bytes(32), Note: "x25519key"}
+			}
+			if r.Intn(48) == 0 {
+				cs = c14KeyShapeCases(r, 1)[r.Intn(2*len(c14KeyShapes))]
 			}
 			if (cs.Kind == "x448" || cs.Kind == "x25519") && r.Intn(6) == 0 {
 				n := 56
